@@ -449,7 +449,7 @@ pub fn main(seed: u64, tier: &str, only: Option<&str>) {
         }
         return;
     }
-    let n = if tier == "thorough" { 1500 } else { 90 };
+    let n = if tier == "thorough" { 1500 * crate::out::thorough_scale() } else { 90 };
     for case in 0..n {
         let mut rng = Rng::new(seed ^ 0x7157, case as u64);
         let mut g = if case % 3 == 0 { GenCfg::mvp() } else { GenCfg::random(&mut rng) };
@@ -460,7 +460,7 @@ pub fn main(seed: u64, tier: &str, only: Option<&str>) {
         run_module(&format!("v{}", case), &wasm, &mut stats);
     }
     // built trees (shared with C15)
-    let nb = if tier == "thorough" { 3000 } else { 150 };
+    let nb = if tier == "thorough" { 3000 * crate::out::thorough_scale() } else { 150 };
     crate::builder::visit_built(seed, nb, &mut stats);
     // deep nesting, in a subprocess so that a stack overflow is observed, not suffered
     let exe = std::env::current_exe().unwrap();
